@@ -17,6 +17,7 @@ import (
 )
 
 type Loaded struct {
+	missing []*Contract // contracts naming functions that do not exist in the current tree
 	prog    *ssa.Program
 	pkgs    []*packages.Package
 	fnByKey map[string][]*ssa.Function
@@ -90,7 +91,7 @@ func loadRepo(repo string, stdlibContracts string) (*Loaded, error) {
 			if c.Assumed {
 				continue // assumed contract for a library function this build does not reach
 			}
-			return nil, fmt.Errorf("%s:%d: contract names function %q which does not exist in the current tree", c.File, c.Line, k)
+			ld.missing = append(ld.missing, c)
 		}
 	}
 	return ld, nil
@@ -133,6 +134,10 @@ func (ld *Loaded) verifyFunction(c *Contract) (res *FuncResult) {
 				if r := recover(); r != nil {
 					if ee, ok := r.(*EngineError); ok {
 						res.Err = ee.Msg
+						return
+					}
+					if s, ok := r.(string); ok {
+						res.Err = "internal: " + s
 						return
 					}
 					panic(r)
@@ -221,7 +226,14 @@ func (x *Exec) verify(fn *ssa.Function, c *Contract) {
 		if r.Label != "" && instOnly[r.Label] {
 			continue
 		}
-		st.assume(env.evalBool(r))
+		g, note := safeEval(env, r)
+		if note != "" {
+			// the precondition no longer makes sense for this function (parameter renamed,
+			// method replaced by a promoted one, ...): the contract is not met
+			x.emit(st, "contract:requires", "pre", tFalse, fmt.Sprintf("requires %q%s", r.Src, note))
+			return
+		}
+		st.assume(g)
 	}
 	for _, r := range c.Assumes {
 		if r.Label != "" && instOnly[r.Label] {
@@ -284,7 +296,8 @@ func (x *Exec) verify(fn *ssa.Function, c *Contract) {
 				if lbl == "" {
 					lbl = fmt.Sprint(i)
 				}
-				x.emit(s, "post_panic:"+lbl, "post_panic", e2.evalBool(en), fmt.Sprintf("ensures_panic %q", en.Src))
+				g, note := safeEval(e2, en)
+				x.emit(s, "post_panic:"+lbl, "post_panic", g, fmt.Sprintf("ensures_panic %q%s", en.Src, note))
 			}
 			if panicCond != nil {
 				x.emitCover(s, "cover:panic_exit", "a panic exit of "+c.Key+" is reachable")
@@ -301,11 +314,12 @@ func (x *Exec) verify(fn *ssa.Function, c *Contract) {
 			if lbl == "" {
 				lbl = fmt.Sprint(i)
 			}
-			if len(c.Split) > 0 && en.Label != "" && splitApplies(c.Split, en.Label) {
-				x.splitEmit(s, e2, splitFor(c.Split, en.Label), "post:"+lbl, "post", e2.evalBool(en), fmt.Sprintf("ensures %q", en.Src))
+			g, note := safeEval(e2, en)
+			if len(c.Split) > 0 && en.Label != "" && splitApplies(c.Split, en.Label) && note == "" {
+				x.splitEmit(s, e2, splitFor(c.Split, en.Label), "post:"+lbl, "post", g, fmt.Sprintf("ensures %q", en.Src))
 				continue
 			}
-			x.emit(s, "post:"+lbl, "post", e2.evalBool(en), fmt.Sprintf("ensures %q", en.Src))
+			x.emit(s, "post:"+lbl, "post", g, fmt.Sprintf("ensures %q%s", en.Src, note))
 		}
 		if c.HasMod {
 			x.frameObligations(s, c, fr)
@@ -321,6 +335,26 @@ func (x *Exec) verify(fn *ssa.Function, c *Contract) {
 		}
 		x.obligation("post:"+lbl, "post")
 	}
+}
+
+// safeEval evaluates a clause to be proved; a clause that cannot be evaluated on the
+// current code (a name it mentions is gone, an event it speaks about was not emitted)
+// is a failed obligation, not an engine error.
+func safeEval(env *CEnv, cl Clause) (goal Tm, note string) {
+	defer func() {
+		if r := recover(); r != nil {
+			if ee, ok := r.(*EngineError); ok {
+				goal, note = tFalse, " [clause cannot be evaluated on this path: "+ee.Msg+"]"
+				return
+			}
+			if s, ok := r.(string); ok {
+				goal, note = tFalse, " [clause cannot be evaluated on this path: "+s+"]"
+				return
+			}
+			panic(r)
+		}
+	}()
+	return env.evalBool(cl), ""
 }
 
 // assumeStructInv assumes declared struct invariants for a pointer-to-struct value.
